@@ -368,6 +368,7 @@ def make_jobs(tier, seed):
 
 
 def run_job(job, acc):
+    gen.NON_ASCII_BODIES = True     # command bodies must reach every script verbatim, whatever bytes they hold
     _, s, n = job
     r = random.Random(s)
     P = probe.Probe()
